@@ -137,9 +137,11 @@ Definition same_set_ss (a b : list (string * string)) : bool := incl_ss a b && i
 (** ** The box-type table: a boolean well-formedness check, discharged by
     computation on the regenerated table, from which the unbounded round-trip
     statements follow by a generic argument (no 2^32 sweep inside Coq). *)
+(** Names and codes are unique and the codes are 32-bit values.  A name the MODEL has no constructor for (a box type added to the
+    enumeration in the source that no decoder of the library dispatches on) is allowed: [boxtype_of_u32] maps its code to
+    [UnknownBox c], which is how every dispatch of the library treats it (the [_ =>] arm), and [UnknownBox c] converts back to [c]. *)
 Definition table_ok (tbl : list (string * N)) : bool :=
   nodup_s (keys_s tbl) && nodup_n (map snd tbl)
-  && forallb (fun e => match of_name (fst e) with Some b => String.eqb (name_of b) (fst e) | None => false end) tbl
   && forallb (fun e => snd e <? U32) tbl.
 
 Lemma of_name_name b n : of_name n = Some b -> name_of b = n.
@@ -156,20 +158,21 @@ Proof.
   intros H. apply find_some in H as [Hin E]. cbn in E. apply N.eqb_eq in E. subst. auto.
 Qed.
 
+Lemma of_name_not_unknown n c : of_name n <> Some (UnknownBox c).
+Proof.
+  unfold of_name. intros H. apply find_some in H as [Hin _]. unfold known_boxtypes in Hin. cbn [In] in Hin.
+  repeat (destruct Hin as [E|Hin]; [discriminate E|]). exact Hin.
+Qed.
+
 Lemma table_ok_parts tbl : table_ok tbl = true ->
   NoDup (keys_s tbl) /\ NoDup (map snd tbl)
-  /\ (forall e, In e tbl -> exists b, of_name (fst e) = Some b /\ name_of b = fst e)
   /\ (forall e, In e tbl -> snd e < U32).
 Proof.
   intros Hok. unfold table_ok in Hok.
-  apply andb_true_iff in Hok as [H H4]. apply andb_true_iff in H as [H H3].
-  apply andb_true_iff in H as [H1 H2].
+  apply andb_true_iff in Hok as [H H4]. apply andb_true_iff in H as [H1 H2].
   repeat split.
   - now apply nodup_s_NoDup.
   - now apply nodup_n_NoDup.
-  - intros e He. rewrite forallb_forall in H3. specialize (H3 e He).
-    destruct (of_name (fst e)) as [b|]; [|discriminate]. exists b. split; auto.
-    now apply String.eqb_eq.
   - intros e He. rewrite forallb_forall in H4. specialize (H4 e He). now apply N.ltb_lt.
 Qed.
 
@@ -190,26 +193,24 @@ Section BoxTypeTable.
 
   Let Hparts :
     NoDup (keys_s Tables.boxtype_table) /\ NoDup (map snd Tables.boxtype_table)
-    /\ (forall e, In e Tables.boxtype_table -> exists b, of_name (fst e) = Some b /\ name_of b = fst e)
     /\ (forall e, In e Tables.boxtype_table -> snd e < U32).
   Proof. exact (table_ok_parts _ Hok). Qed.
 
   (** every 32-bit code survives code -> box type -> code (also beyond 32 bits) *)
   Lemma u32_boxtype_u32 c : u32_of_boxtype (boxtype_of_u32 c) = c.
   Proof.
-    destruct Hparts as (Hn & Hc & Hnames & _).
+    destruct Hparts as (Hn & Hc & _).
     unfold boxtype_of_u32.
     destruct (find _ Tables.boxtype_table) as [[n c']|] eqn:E; [|reflexivity].
     apply find_code_In in E as [Hin ->].
-    destruct (Hnames _ Hin) as (b & Hb & Hnb). cbn [fst] in *. rewrite Hb.
+    destruct (of_name n) as [b|] eqn:Hb; [|reflexivity].
+    pose proof (of_name_name _ _ Hb) as Hnb.
     unfold u32_of_boxtype.
     assert (L : lookup_s (name_of b) Tables.boxtype_table = Some c).
     { rewrite Hnb. now apply lookup_s_In. }
     rewrite L. destruct b; try reflexivity.
-    (* b = UnknownBox: its name is not in the table *)
-    exfalso. cbn in Hnb. apply of_name_name in Hb. cbn in Hb. subst n.
-    unfold of_name in *. clear -Hnames Hin.
-    destruct (Hnames _ Hin) as (b' & Hb' & _). cbn [fst] in Hb'. discriminate Hb'.
+    (* b = UnknownBox: [of_name] never returns it *)
+    exfalso. eapply of_name_not_unknown. exact Hb.
   Qed.
 
   Definition bt_wf (b : boxtype) : bool :=
@@ -226,7 +227,7 @@ Section BoxTypeTable.
   (** every box type survives box type -> code -> box type *)
   Lemma boxtype_u32_boxtype b : bt_wf b = true -> boxtype_of_u32 (u32_of_boxtype b) = b.
   Proof.
-    destruct Hparts as (Hn & Hc & Hnames & _).
+    destruct Hparts as (Hn & Hc & _).
     intros Hwf.
     assert (K : forall b', (forall c, b' <> UnknownBox c) ->
                  existsb (fun e => String.eqb (fst e) (name_of b')) Tables.boxtype_table = true ->
